@@ -169,4 +169,34 @@ def singlePollOK : Option Nat → List EObs → Bool
 /-- whatever is still queued has a poll event coming for it -/
 def pollCoverOK (obs : List EObs) (depth : Nat) : Bool := depth == 0 || (outstanding none obs).isSome
 
+/-! ### the queue respects its configured capacity (entity level, every capacity incl. 0 and unbounded) -/
+
+/-- one delivery as seen from outside: request or poll; did the handler emit a forward; did the public
+    `dropped` counter go up; the public `queue_depth` afterwards -/
+structure CObs where
+  req : Bool
+  fwd : Bool
+  drop : Bool
+  da : Nat
+deriving Repr, DecidableEq
+
+/-- `cap = none`: unbounded.  `db` = queue depth before the delivery.  The depth never exceeds the
+    capacity; a request is dropped exactly when it is refused while the queue is full (capacity 0:
+    whenever it is refused) and then the queue is untouched; a refused request that finds room is queued;
+    a granted request leaves the depth as it was (it goes out itself, or the oldest goes out and it takes
+    the place); a poll drops nothing and removes one request iff it forwards one. -/
+def capStepOK (cap : Option Nat) (db : Nat) (o : CObs) : Bool :=
+  let full := match cap with | none => false | some c => decide (c ≤ db)
+  let within := match cap with | none => true | some c => decide (o.da ≤ c)
+  within &&
+    (if o.req then
+      (if o.drop then !o.fwd && full && o.da == db
+       else if o.fwd then o.da == db
+       else !full && o.da == db + 1)
+     else !o.drop && (if o.fwd then o.da + 1 == db else o.da == db))
+
+def capacityOK (cap : Option Nat) : Nat → List CObs → Bool
+  | _, [] => true
+  | db, o :: os => capStepOK cap db o && capacityOK cap o.da os
+
 end HappyModel.C10
